@@ -4,43 +4,80 @@
 (*                                                                                                                    *)
 (* TEMPLATE (harness/checks/c16.py build_net instantiates exactly the record Inst(cfg) defined below):               *)
 (*   bus 0 (110 kV) --trafo T (20 MVA)-- bus 1 --line A-- bus 2 --line B-- bus 3      (all 20 kV, lines 20 MVA)      *)
-(*   optional mesh line C: bus 1 -- bus 3;   optional dcline bus 1 -> bus 3                                           *)
-(*   ext_grid @0, gen @2, storage @2, fixed "base" load @2 (3 MW, 1 Mvar), sgen @3, load @3                           *)
+(*   optional mesh line C: bus 1 -- bus 3;   transformer phase shift 0 / 30 / 150 / -30 degree (cfg.shift)             *)
+(*   up to three dclines (cfg.dcl names the sequence; slot 1: bus 1 -> 3, slot 2: bus 2 -> 1, slot 3: bus 3 -> 2), each  *)
+(*   operated forward (p_mw > 0) or in reverse (p_mw < 0), lossless or lossy                                            *)
+(*   ext_grid @0, gen @2, storage @2, fixed "base" load @2 (3 MW, 1 Mvar), sgen @3, load @3;   net.sn_mva = cfg.sn      *)
+(*   optional "ghost" (cfg.ghost): one of sgen / load / storage is OUT OF SERVICE but keeps its cost row                 *)
 (* One element of every kind that can carry a cost: Et.  All powers are INTEGER MW / Mvar, all cost coefficients     *)
 (* integers, so that the spec can evaluate cost functions exactly and enumerate the integer dispatch grid.           *)
 (*                                                                                                                    *)
 (* USER-SIDE SIGN CONVENTION (stated once, used by every clause): the power of an element is the value in its own    *)
 (* result table: res_gen/res_sgen/res_ext_grid.p_mw = generation, res_load/res_storage.p_mw = consumption,            *)
-(* res_dcline.p_from_mw = power taken from the from-bus.  A cost row of element e contributes                         *)
+(* res_dcline.p_from_mw = power taken from the from-bus (negative when the line is operated in reverse).  The dcline  *)
+(* cost row belongs to the LAST dcline of the table.  A cost row of element e contributes                             *)
 (*     c2*p^2 + c1*p + c0  (+ cq2*q^2 + cq1*q + cq0)        resp.       Pwl(points, p)                                *)
 (* with p, q in THAT convention; no element kind is negated on the user side.                                         *)
 EXTENDS Fix, FiniteSets, TLC
 
 M == 1000000                                   \* micro-units per unit
 Et == {"ext_grid", "gen", "sgen", "load", "storage", "dcline"}
+EtSeq == <<"ext_grid", "gen", "sgen", "load", "storage", "dcline">>      \* the order in which the harness creates cost rows
 Flex == {"gen", "sgen", "load", "storage"}     \* kinds with a `controllable` flag
 PQ == {"sgen", "load", "storage"}              \* PQ elements: enter the OPF as a generator only when controllable
 \* elements entered into the solver as NEGATIVE generators: build_gen.py:97-99 (inverted=True), auxiliary.py:1605 (dcline
 \* from-gen p = -p_mw), make_objective.py:60, 85 (`signs`)
 Inverted(et) == et \in {"load", "storage", "dcline"}
 BusOf(et) == CASE et = "ext_grid" -> 0 [] et = "gen" -> 2 [] et = "storage" -> 2 [] et = "sgen" -> 3 [] et = "load" -> 3
-               [] et = "dcline" -> 1           \* from-bus; to-bus is 3
+               [] et = "dcline" -> 1           \* from-bus of slot 1 (the dclines' buses: DclFrom / DclTo)
 
 Kinds == {"none", "lin", "lin0", "quad", "quad0", "pwl1", "pwl2", "pwl3", "linq", "quadq"}
 PolyKinds == {"lin", "lin0", "quad", "quad0", "linq", "quadq"}
 PwlKinds == {"pwl1", "pwl2", "pwl3"}
 QuadKinds == {"quad", "quad0", "quadq"}
 QKinds == {"linq", "quadq"}
+\* kinds whose function vanishes at p = q = 0 (no constant term): the rows a ghost may carry, see Valid
+ZeroAtZeroKinds == {"lin", "quad", "pwl1", "pwl2", "pwl3"}
+
+-----------------------------------------------------------------------------
+(* dclines.  cfg.dcl is a level name; the letters give the lines in table order:                                      *)
+(*   f forward lossless, F forward lossy, r reverse lossless, R reverse lossy                                          *)
+(* The direction is the sign of the set point dcline.p_mw (auxiliary.py:1588-1597: p_mw > 0: the aux generator at the    *)
+(* to-bus gets [0, max_p_mw] and the one at the from-bus [-max_p_mw, 0]; otherwise the ranges are mirrored), the OPF     *)
+(* does not change the direction.                                                                                       *)
+DclLines(level) ==
+  CASE level = "none" -> <<>>
+    [] level = "f"    -> <<"f">>
+    [] level = "F"    -> <<"F">>
+    [] level = "r"    -> <<"r">>
+    [] level = "R"    -> <<"R">>
+    [] level = "fr"   -> <<"f", "r">>
+    [] level = "rf"   -> <<"r", "f">>
+    [] level = "ff"   -> <<"f", "f">>
+    [] level = "rr"   -> <<"r", "r">>
+    [] level = "Fr"   -> <<"F", "r">>
+    [] level = "frf"  -> <<"f", "r", "f">>
+    [] level = "rfr"  -> <<"r", "f", "r">>
+DclLevels == {"none", "f", "F", "r", "R", "fr", "rf", "ff", "rr", "Fr", "frf", "rfr"}
+PlainDcl == {"none", "f", "F"}                 \* at most one dcline, operated forward
+DclRev(code) == code \in {"r", "R"}
+DclLossy(code) == code \in {"F", "R"}
+DclFrom(k) == CASE k = 1 -> 1 [] k = 2 -> 2 [] k = 3 -> 3
+DclTo(k) == CASE k = 1 -> 3 [] k = 2 -> 1 [] k = 3 -> 2
+DclPMax(k, lim) == CASE k = 1 -> (IF lim = "loose" THEN 2 ELSE 1)      \* max_p_mw: different per slot, so that two lines
+                     [] k = 2 -> (IF lim = "loose" THEN 3 ELSE 2)      \* at their limits carry different powers
+                     [] k = 3 -> 1
+DclLossPercent(code) == IF DclLossy(code) THEN 2 ELSE 0
+DclLossKw(code) == IF DclLossy(code) THEN 50 ELSE 0
 
 -----------------------------------------------------------------------------
 (* Numeric tables (integers; MW, Mvar, percent, micro-p.u.)                                                           *)
-PLim(et, lim) ==       \* <<min_p_mw, max_p_mw>>; dcline: <<0, max_p_mw>> (auxiliary.py:1592-1593)
+PLim(et, lim) ==       \* <<min_p_mw, max_p_mw>> of the elements with limit columns (dclines: DclPLim below)
   CASE et = "ext_grid" -> IF lim = "loose" THEN <<-10, 10>> ELSE <<0, 6>>
     [] et = "gen"      -> IF lim = "loose" THEN <<0, 5>>   ELSE <<1, 3>>
     [] et = "sgen"     -> IF lim = "loose" THEN <<0, 4>>   ELSE <<1, 2>>
     [] et = "load"     -> IF lim = "loose" THEN <<0, 5>>   ELSE <<2, 4>>
     [] et = "storage"  -> IF lim = "loose" THEN <<-2, 2>>  ELSE <<-1, 1>>
-    [] et = "dcline"   -> IF lim = "loose" THEN <<0, 2>>   ELSE <<0, 1>>
 QLim(et, lim) ==       \* <<min_q_mvar, max_q_mvar>>; dcline: symmetric, the same at both ends (sign convention of the
                        \* dcline q limits is not documented, so only symmetric intervals are generated)
   CASE et = "ext_grid" -> IF lim = "loose" THEN <<-10, 10>> ELSE <<-3, 3>>
@@ -53,48 +90,62 @@ PSet(et) == CASE et = "gen" -> 2 [] et = "sgen" -> 1 [] et = "load" -> 3 [] et =
               [] et = "ext_grid" -> 0
 QSet(et) == CASE et = "load" -> 1 [] OTHER -> 0
 VSet(et) == CASE et = "ext_grid" -> 1020000 [] et = "gen" -> 1010000 [] OTHER -> 1000000     \* vm_pu set points
+\* voltage set point of a dcline end: that of the generator when the end sits on the generator's bus (a power flow
+\* refuses different set points of voltage controlling elements at one bus)
+DclVm(bus) == IF bus = BusOf("gen") THEN VSet("gen") ELSE 1000000
 BaseP == 3
 BaseQ == 1
 VBand(b) == IF b = "wide" THEN <<900000, 1100000>> ELSE <<990000, 1030000>>
 Branches == {"T", "A", "B", "C"}
 Sn(br) == 20                                   \* MVA at 100 % loading (trafo sn_mva; lines sqrt(3)*20 kV*max_i_ka)
-MaxLoading(br, lvl) == IF lvl = "loose" THEN 100 ELSE IF br = "T" THEN 30 ELSE 20      \* max_loading_percent
+\* max_loading_percent; level "trafo": only the transformer is rated tightly (with "tight" line A, which carries everything
+\* that passes the transformer except the dcline infeed at bus 1, reaches its rating first)
+MaxLoading(br, lvl) == IF lvl = "loose" THEN 100 ELSE IF br = "T" THEN 30 ELSE IF lvl = "trafo" THEN 100 ELSE 20
 Cap(br, lvl) == (Sn(br) * MaxLoading(br, lvl)) \div 100                               \* MVA, integer (ASSUMEd in Opf)
-DclLossPercent(d) == IF d = 2 THEN 2 ELSE 0
-DclLossKw(d) == IF d = 2 THEN 50 ELSE 0
+\* transformer phase shift: cfg.shift in degree modulo 360 (a cfg file cannot hold a negative number)
+ShiftDeg(s) == IF s > 180 THEN s - 360 ELSE s
 
-\* cost coefficient tables: distinct per element kind so that a row attached to the wrong element shows
+\* cost coefficient tables: distinct per element kind so that a row attached to the wrong element shows.
+\* Variants 1, 2: mixed prices.  Variant 3: "cheap generation behind the transformer" -- the ext_grid pays more than every
+\* generating element costs, so the optimum exports through the transformer (power flows lv -> hv).
 C1Lin(et, v) == IF v = 1 THEN (CASE et = "ext_grid" -> 10 [] et = "gen" -> 12 [] et = "sgen" -> 8 [] et = "load" -> -15
                                  [] et = "storage" -> 3 [] et = "dcline" -> 2)
-                ELSE (CASE et = "ext_grid" -> 10 [] et = "gen" -> 7 [] et = "sgen" -> 11 [] et = "load" -> 9
+                ELSE IF v = 2 THEN (CASE et = "ext_grid" -> 10 [] et = "gen" -> 7 [] et = "sgen" -> 11 [] et = "load" -> 9
                         [] et = "storage" -> -4 [] et = "dcline" -> -3)
-C2Quad(et, v) == IF v = 1 THEN (CASE et = "sgen" -> 2 [] et = "load" -> 2 [] OTHER -> 1)
+                ELSE (CASE et = "ext_grid" -> 20 [] et = "gen" -> 6 [] et = "sgen" -> 4 [] et = "load" -> -2
+                        [] et = "storage" -> 3 [] et = "dcline" -> 1)
+C2Quad(et, v) == IF v # 2 THEN (CASE et = "sgen" -> 2 [] et = "load" -> 2 [] OTHER -> 1)
                  ELSE (CASE et = "gen" -> 2 [] et = "storage" -> 2 [] et = "dcline" -> 2 [] OTHER -> 1)
 C1Quad(et, v) == IF v = 1 THEN (CASE et = "ext_grid" -> 3 [] et = "gen" -> 4 [] et = "sgen" -> 3 [] et = "load" -> -16
                                   [] et = "storage" -> -2 [] et = "dcline" -> -4)
-                 ELSE (CASE et = "ext_grid" -> -2 [] et = "gen" -> 1 [] et = "sgen" -> 6 [] et = "load" -> -13
+                 ELSE IF v = 2 THEN (CASE et = "ext_grid" -> -2 [] et = "gen" -> 1 [] et = "sgen" -> 6 [] et = "load" -> -13
                          [] et = "storage" -> 5 [] et = "dcline" -> 1)
+                 ELSE (CASE et = "ext_grid" -> 20 [] et = "gen" -> 1 [] et = "sgen" -> 2 [] et = "load" -> -3
+                         [] et = "storage" -> 2 [] et = "dcline" -> 1)
 C0Of(et) == CASE et = "ext_grid" -> 6 [] et = "gen" -> 7 [] et = "sgen" -> 5 [] et = "load" -> 9 [] et = "storage" -> 4
               [] et = "dcline" -> 3
 CQ2Of(et) == 1
 CQ1Of(et) == CASE et = "gen" -> 2 [] et = "load" -> -1 [] OTHER -> 1
 CQ0Of(et) == 3
-\* piecewise linear: consecutive areas <<lower, upper, slope>> covering the loose p range, slopes increasing by 5 (convex)
-PwlBreaks(et, n) ==
+\* piecewise linear: consecutive areas <<lower, upper, slope>> covering the loose p range, slopes increasing by 5 (convex);
+\* dcline: one area covering the range of every slot, mirrored for a line operated in reverse
+PwlBreaks(et, n, rev) ==
   CASE et = "ext_grid" -> IF n = 1 THEN <<-10, 10>> ELSE IF n = 2 THEN <<-10, 0, 10>> ELSE <<-10, 0, 4, 10>>
     [] et = "gen"      -> IF n = 1 THEN <<0, 5>> ELSE IF n = 2 THEN <<0, 2, 5>> ELSE <<0, 2, 3, 5>>
     [] et = "sgen"     -> IF n = 1 THEN <<0, 4>> ELSE IF n = 2 THEN <<0, 2, 4>> ELSE <<0, 1, 3, 4>>
     [] et = "load"     -> <<0, 5>>
     [] et = "storage"  -> <<-2, 2>>
-    [] et = "dcline"   -> <<0, 2>>
+    [] et = "dcline"   -> IF rev THEN <<-3, 0>> ELSE <<0, 3>>
 PwlS0(et, v) == IF v = 1 THEN (CASE et = "ext_grid" -> 6 [] et = "gen" -> 4 [] et = "sgen" -> 5 [] et = "load" -> -15
                                  [] et = "storage" -> 3 [] et = "dcline" -> 2)
-                ELSE (CASE et = "ext_grid" -> 9 [] et = "gen" -> 8 [] et = "sgen" -> 2 [] et = "load" -> 9
+                ELSE IF v = 2 THEN (CASE et = "ext_grid" -> 9 [] et = "gen" -> 8 [] et = "sgen" -> 2 [] et = "load" -> 9
                         [] et = "storage" -> -4 [] et = "dcline" -> -3)
-PwlPoints(et, n, v) == LET b == PwlBreaks(et, n) IN [k \in 1..n |-> <<b[k], b[k + 1], PwlS0(et, v) + 5 * (k - 1)>>]
+                ELSE (CASE et = "ext_grid" -> 15 [] et = "gen" -> 2 [] et = "sgen" -> 1 [] et = "load" -> -2
+                        [] et = "storage" -> 3 [] et = "dcline" -> 1)
+PwlPoints(et, n, v, rev) == LET b == PwlBreaks(et, n, rev) IN [k \in 1..n |-> <<b[k], b[k + 1], PwlS0(et, v) + 5 * (k - 1)>>]
 
 NSeg(kind) == CASE kind = "pwl1" -> 1 [] kind = "pwl2" -> 2 [] kind = "pwl3" -> 3 [] OTHER -> 0
-CostRow(et, kind, v) ==     \* the row the user enters with create_poly_cost / create_pwl_cost
+CostRow(et, kind, v, rev) ==     \* the row the user enters with create_poly_cost / create_pwl_cost
   [kind |-> IF kind = "none" THEN "none" ELSE IF kind \in PwlKinds THEN "pwl" ELSE "poly",
    c2 |-> IF kind \in QuadKinds THEN C2Quad(et, v) ELSE 0,
    c1 |-> IF kind \in QuadKinds THEN C1Quad(et, v) ELSE IF kind \in PolyKinds THEN C1Lin(et, v) ELSE 0,
@@ -102,51 +153,90 @@ CostRow(et, kind, v) ==     \* the row the user enters with create_poly_cost / c
    q2 |-> IF kind = "quadq" THEN CQ2Of(et) ELSE 0,
    q1 |-> IF kind \in QKinds THEN CQ1Of(et) ELSE 0,
    q0 |-> IF kind \in QKinds THEN CQ0Of(et) ELSE 0,
-   pts |-> IF kind \in PwlKinds THEN PwlPoints(et, NSeg(kind), v) ELSE <<>>]
+   pts |-> IF kind \in PwlKinds THEN PwlPoints(et, NSeg(kind), v, rev) ELSE <<>>]
 
 -----------------------------------------------------------------------------
-(* Configurations.  cfg = [ac, opts, mesh, dcl, ctrl, egc, vband, plim, qlim, rate, kind, var]                         *)
+(* Configurations.  cfg = [ac, opts, mesh, dcl, ctrl, egc, vband, plim, qlim, rate, kind, var, shift, sn, ghost, gfirst] *)
 (*   ac    TRUE: runopp, FALSE: rundcopp           opts  "default" | "tight" (documented PDIPM_* / OPF_VIOLATION kwargs) *)
-(*   mesh  line C present                           dcl   0 no dcline, 1 lossless dcline, 2 dcline with losses          *)
+(*   mesh  line C present                           dcl   level of DclLevels: the sequence of dclines                    *)
 (*   ctrl  [Flex -> BOOLEAN] controllable flags    egc   ext_grid.controllable                                        *)
-(*   vband / plim / qlim / rate   "wide"|"narrow", "loose"|"tight" limit levels                                        *)
-(*   kind  [Et -> Kinds] cost kind per element     var   1 | 2 coefficient variant                                    *)
-Present(cfg, et) == et # "dcline" \/ cfg.dcl # 0
+(*   vband / plim / qlim / rate   "wide"|"narrow", "loose"|"tight" limit levels (rate also "trafo")                    *)
+(*   kind  [Et -> Kinds] cost kind per element     var   1 | 2 | 3 coefficient variant                                *)
+(*   shift transformer shift_degree modulo 360     sn    net.sn_mva (the per-unit base of the solver)                  *)
+(*   ghost "none" | an element of PQ that is out of service (in_service = False) and keeps its cost row                *)
+(*   gfirst  the ghost's cost row is created before all other cost rows (otherwise at its place in EtSeq)              *)
+Lines(cfg) == DclLines(cfg.dcl)
+NDcl(cfg) == Len(Lines(cfg))
+AnyLossy(cfg) == \E k \in 1..NDcl(cfg) : DclLossy(Lines(cfg)[k])
+DclPLim(cfg, k) ==      \* range of res_dcline.p_from_mw of line k
+  LET m == DclPMax(k, cfg.plim) IN IF DclRev(Lines(cfg)[k]) THEN <<-m, 0>> ELSE <<0, m>>
+CostedDclRev(cfg) == NDcl(cfg) > 0 /\ DclRev(Lines(cfg)[NDcl(cfg)])
+\* p limits of the element that a cost row of kind `et` refers to (dcline: the last line)
+PLimOf(cfg, et) == IF et = "dcline" THEN (IF NDcl(cfg) = 0 THEN <<0, 0>> ELSE DclPLim(cfg, NDcl(cfg))) ELSE PLim(et, cfg.plim)
+InService(cfg, et) == et # cfg.ghost
+Present(cfg, et) == (et # "dcline" \/ NDcl(cfg) > 0) /\ InService(cfg, et)
 \* is the element an optimisation variable of the OPF?  (ext_grid, gen: always a ppc generator, build_gen.py:92-95;
-\* sgen/load/storage: only `controllable` rows, pd2ppc / build_gen.py:96-101; dcline: always, run.py docstring:416)
-IsVar(cfg, et) == IF et \in PQ THEN cfg.ctrl[et] ELSE Present(cfg, et)
+\* sgen/load/storage: only `controllable` rows in service, pd2ppc / build_gen.py:96-101; dcline: always, run.py docstring:416)
+IsVar(cfg, et) == IF et \in PQ THEN cfg.ctrl[et] /\ InService(cfg, et) ELSE Present(cfg, et)
 \* may the optimiser move the active power?  a non-controllable gen is a ppc generator with p fixed (build_gen.py:183-201)
-PFree(cfg, et) == IF et \in Flex THEN cfg.ctrl[et] ELSE Present(cfg, et)
+PFree(cfg, et) == IF et \in Flex THEN cfg.ctrl[et] /\ InService(cfg, et) ELSE Present(cfg, et)
 Costed(cfg) == {e \in Et : cfg.kind[e] # "none"}
-AnyPwl(cfg) == \E e \in Et : cfg.kind[e] \in PwlKinds
+CostedVars(cfg) == Costed(cfg) \ {cfg.ghost}                  \* the rows that belong to an optimisation variable
+AnyPwl(cfg) == \E e \in Et : cfg.kind[e] \in PwlKinds         \* make_objective.py:21 len(net.pwl_cost): ghost rows count
 AnyQuad(cfg) == \E e \in Et : cfg.kind[e] \in QuadKinds       \* make_objective.py:65 is_quadratic (cp2 or cq2 non-zero)
 AnyQCost(cfg) == \E e \in Et : cfg.kind[e] \in QKinds
 \* inputs the property speaks about (everything else is rejected by the code or documented as unsupported):
 Valid(cfg) ==
-  /\ Costed(cfg) # {}                                     \* no cost rows: the code substitutes "minimise generation" (make_objective.py:34-38)
-  /\ \A e \in Costed(cfg) : IsVar(cfg, e)                 \* rows of elements that are not OPF variables are dropped (make_objective.py:42-58): not claimed
+  /\ CostedVars(cfg) # {}                                 \* no cost rows: the code substitutes "minimise generation" (make_objective.py:34-38)
+  /\ \A e \in CostedVars(cfg) : IsVar(cfg, e)             \* rows of IN-SERVICE elements that are not OPF variables are dropped (make_objective.py:42-58)
+                                                          \* although the element has a power: not claimed
+  \* ghost: the row of an OUT-OF-SERVICE element is dropped as well, but its element has no power, and a cost function
+  \* without constant term is zero there -- the user's sum is the same with and without the row.  Only such rows are
+  \* generated; the ghost is the only element of its kind (a cost row of an out-of-service element with a LOWER index than an
+  \* in-service controllable element of the same table is attributed to another generator: proposed_fixes/C17_3)
+  /\ (cfg.ghost # "none" => cfg.ghost \in PQ /\ cfg.kind[cfg.ghost] \in ZeroAtZeroKinds)
+  /\ (cfg.ghost = "none" => cfg.gfirst)                   \* canonical
   /\ ~(AnyPwl(cfg) /\ AnyQuad(cfg))                       \* ValueError, make_objective.py:27-28, 72-73
   /\ ~(AnyPwl(cfg) /\ AnyQCost(cfg))                      \* q cost of poly rows is not transferred to pwl form (make_objective.py:146-153): not claimed
   /\ (AnyQCost(cfg) => cfg.ac)                            \* DC OPF has no reactive power
   /\ \A e \in Et : (cfg.kind[e] \in {"pwl2", "pwl3"} => ~Inverted(e))   \* doc/opf/formulation.rst:78 "Loads can only have 2 data points"
   /\ \A e \in Et : (cfg.kind[e] \in QKinds => e \in {"gen", "sgen", "load"})
-  /\ (cfg.dcl = 0 => cfg.kind["dcline"] = "none")
+  /\ (NDcl(cfg) = 0 => cfg.kind["dcline"] = "none")
+  /\ (cfg.ac => cfg.shift # 150)                          \* runopp does not converge from its flat start across a 150 degree shift: DC only
 
-ElOf(cfg, e) ==    \* limits, set points and flags of element e
-  [present |-> Present(cfg, e), ctrl |-> IF e \in Flex THEN cfg.ctrl[e] ELSE IF e = "ext_grid" THEN cfg.egc ELSE TRUE,
-   pmin |-> PLim(e, cfg.plim)[1], pmax |-> PLim(e, cfg.plim)[2], qmin |-> QLim(e, cfg.qlim)[1], qmax |-> QLim(e, cfg.qlim)[2],
+ElOf(cfg, e) ==    \* limits, set points and flags of element e (dcline: the costed = last line; all lines: LinesOf)
+  [present |-> Present(cfg, e), ins |-> InService(cfg, e),
+   ctrl |-> IF e \in Flex THEN cfg.ctrl[e] ELSE IF e = "ext_grid" THEN cfg.egc ELSE TRUE,
+   pmin |-> PLimOf(cfg, e)[1], pmax |-> PLimOf(cfg, e)[2], qmin |-> QLim(e, cfg.qlim)[1], qmax |-> QLim(e, cfg.qlim)[2],
    pset |-> PSet(e), qset |-> QSet(e), vset |-> VSet(e), bus |-> BusOf(e)]
-CostRowOf(cfg, e) == CostRow(e, cfg.kind[e], cfg.var)
+LineOf(cfg, k) ==  \* the k-th row of net.dcline
+  LET code == Lines(cfg)[k] IN
+  [from |-> DclFrom(k), to |-> DclTo(k), rev |-> DclRev(code),
+   pset |-> IF DclRev(code) THEN -PSet("dcline") ELSE PSet("dcline"),          \* dcline.p_mw: its sign is the direction
+   pmax |-> DclPMax(k, cfg.plim), qmin |-> QLim("dcline", cfg.qlim)[1], qmax |-> QLim("dcline", cfg.qlim)[2],
+   loss_percent |-> DclLossPercent(code), loss_kw |-> DclLossKw(code),
+   vmf |-> DclVm(DclFrom(k)), vmt |-> DclVm(DclTo(k))]
+LinesOf(cfg) == [k \in 1..NDcl(cfg) |-> LineOf(cfg, k)]
+CostRowOf(cfg, e) == CostRow(e, cfg.kind[e], cfg.var, e = "dcline" /\ CostedDclRev(cfg))
 \* all six rows as a record (built once where it is bound by LET; TLC evaluates a function constructor lazily per application)
 RowsOf(cfg) == [ext_grid |-> CostRowOf(cfg, "ext_grid"), gen |-> CostRowOf(cfg, "gen"), sgen |-> CostRowOf(cfg, "sgen"),
                 load |-> CostRowOf(cfg, "load"), storage |-> CostRowOf(cfg, "storage"), dcline |-> CostRowOf(cfg, "dcline")]
+\* order in which the cost rows are created (poly rows go to net.poly_cost, pwl rows to net.pwl_cost, each in this order)
+RECURSIVE SeqWithout(_, _)
+SeqWithout(s, x) == IF s = <<>> THEN <<>> ELSE (IF Head(s) = x THEN <<>> ELSE <<Head(s)>>) \o SeqWithout(Tail(s), x)
+CostOrder(cfg) == IF cfg.ghost # "none" /\ cfg.gfirst THEN <<cfg.ghost>> \o SeqWithout(EtSeq, cfg.ghost) ELSE EtSeq
 Inst(cfg) ==   \* the concrete network data of a configuration; the harness builds the pandapower net from this record
   [vmin |-> VBand(cfg.vband)[1], vmax |-> VBand(cfg.vband)[2], basep |-> BaseP, baseq |-> BaseQ,
-   ac |-> cfg.ac, opts |-> cfg.opts, mesh |-> cfg.mesh, dcl |-> cfg.dcl,
-   loss_percent |-> DclLossPercent(cfg.dcl), loss_kw |-> DclLossKw(cfg.dcl),
+   ac |-> cfg.ac, opts |-> cfg.opts, mesh |-> cfg.mesh,
+   \* runopp's documented start options: behind a phase shifting transformer the flat start is 30 degree off and the solver
+   \* rarely converges from it, so those cases start from a power flow solution (rundcopp has no such option)
+   init |-> IF cfg.ac /\ cfg.shift # 0 THEN "pf" ELSE "flat",
+   shift_degree |-> ShiftDeg(cfg.shift), sn_mva |-> cfg.sn,
+   lines |-> LinesOf(cfg),
    maxload |-> [br \in Branches |-> MaxLoading(br, cfg.rate)],
-   el |-> [e \in Et |-> ElOf(cfg, e)],
-   cost |-> RowsOf(cfg)]
+   el |-> [e \in Et \ {"dcline"} |-> ElOf(cfg, e)],
+   cost |-> RowsOf(cfg), order |-> CostOrder(cfg),
+   dcl_cost_row |-> IF NDcl(cfg) = 0 THEN 0 ELSE NDcl(cfg) - 1]      \* `element` of the dcline cost row: the last line
 
 -----------------------------------------------------------------------------
 (* Cost functions on the integer grid (EUR, MW).  User side.                                                           *)
@@ -203,14 +293,15 @@ CodeRowQ(row, et, q) == LET s == IF et \in {"load", "storage"} THEN -1 ELSE 1
                         IN  IF row.kind = "poly" THEN row.q2 * se * qg * qg + row.q1 * s * qg + row.q0 * se ELSE 0
 \* What the objective SHOULD be in solver coordinates: only odd powers change sign under pg = -p.
 ReqGenCost(row, et) == LET s == IF Inverted(et) THEN -1 ELSE 1 IN <<row.c2, row.c1 * s, row.c0>>
-PRange(cfg, e) == PLim(e, cfg.plim)[1]..PLim(e, cfg.plim)[2]
+PRange(cfg, e) == PLimOf(cfg, e)[1]..PLimOf(cfg, e)[2]
 QRange(cfg, e) == QLim(e, cfg.qlim)[1]..QLim(e, cfg.qlim)[2]
 \* deviation classes of the transcribed objective from the user's function, on the integer grid of the element's range
+\* (rows of optimisation variables; a ghost's row is dropped by the code and is zero on the user side)
 DevClasses(cfg) ==
   LET rows == RowsOf(cfg)
       pwl == AnyPwl(cfg)
-      pd == {e \in Costed(cfg) : \E p \in PRange(cfg, e) : CodeRowP(rows[e], e, pwl, p) # UserRowP(rows[e], p)}
-      qd == {e \in Costed(cfg) : \E q \in QRange(cfg, e) : CodeRowQ(rows[e], e, q) # UserRowQ(rows[e], q)}
+      pd == {e \in CostedVars(cfg) : \E p \in PRange(cfg, e) : CodeRowP(rows[e], e, pwl, p) # UserRowP(rows[e], p)}
+      qd == {e \in CostedVars(cfg) : \E q \in QRange(cfg, e) : CodeRowQ(rows[e], e, q) # UserRowQ(rows[e], q)}
   IN  {x \in {"inverted_poly_c2_c0", "poly_c0_dropped_next_to_pwl", "inverted_qpoly_c2_c0", "other_p", "other_q"} :
          \/ x = "inverted_poly_c2_c0" /\ \E e \in pd : ~pwl /\ Inverted(e) /\ rows[e].kind = "poly"
          \/ x = "poly_c0_dropped_next_to_pwl" /\ \E e \in pd : pwl /\ rows[e].kind = "poly"
@@ -221,34 +312,49 @@ DevClasses(cfg) ==
 -----------------------------------------------------------------------------
 (* DC OPF on the RADIAL template is a transshipment problem: lossless, every branch flow is the sum of the injections    *)
 (* behind it, all data integer.  With linear / convex piecewise linear costs on integer break points the constraint      *)
-(* matrix (nested 0/1 rows over the chain 0-1-2-3, plus the dcline arc) is totally unimodular, so an optimum lies on     *)
-(* the integer grid: GridOpt is THE optimum.  With convex quadratic costs every grid point is still feasible, so         *)
-(* GridOpt is an upper bound of the optimum.                                                                            *)
+(* matrix (nested 0/1 rows over the chain 0-1-2-3, plus the dcline arcs) is a network matrix, totally unimodular, so an   *)
+(* optimum lies on the integer grid: GridOpt is THE optimum.  With convex quadratic costs every grid point is still       *)
+(* feasible, so GridOpt is an upper bound of the optimum.  The transformer is a bridge of the network (also with the      *)
+(* mesh line), so its phase shift moves the angles behind it and no flow: the oracle does not depend on cfg.shift; nor    *)
+(* does it depend on the per-unit base cfg.sn.                                                                           *)
 DRange(cfg, e) == IF ~Present(cfg, e) THEN {0} ELSE IF PFree(cfg, e) THEN PRange(cfg, e) ELSE {PSet(e)}
+DcRange(cfg, k) == IF k < 1 \/ k > NDcl(cfg) THEN {0} ELSE DclPLim(cfg, k)[1]..DclPLim(cfg, k)[2]
 Dispatches(cfg) == [gen : DRange(cfg, "gen"), sgen : DRange(cfg, "sgen"), load : DRange(cfg, "load"),
-                    storage : DRange(cfg, "storage"), dcline : DRange(cfg, "dcline")]
-PExt(d) == BaseP + d.load + d.storage - d.gen - d.sgen             \* slack injection = total net demand (no losses)
+                    storage : DRange(cfg, "storage"), dc1 : DcRange(cfg, 1), dc2 : DcRange(cfg, 2), dc3 : DcRange(cfg, 3)]
+GridSize(cfg) == Cardinality(DRange(cfg, "gen")) * Cardinality(DRange(cfg, "sgen")) * Cardinality(DRange(cfg, "load"))
+                 * Cardinality(DRange(cfg, "storage")) * Cardinality(DcRange(cfg, 1)) * Cardinality(DcRange(cfg, 2))
+                 * Cardinality(DcRange(cfg, 3))
+DcP(d, k) == CASE k = 1 -> d.dc1 [] k = 2 -> d.dc2 [] k = 3 -> d.dc3 [] OTHER -> 0      \* p_from of line k (0: absent)
+\* power that the dclines deliver to bus b (lossless): slot 1: 1 -> 3, slot 2: 2 -> 1, slot 3: 3 -> 2
+Inj1(d) == d.dc2 - d.dc1
+Inj2(d) == d.dc3 - d.dc2
+Inj3(d) == d.dc1 - d.dc3
+ASSUME \A k \in 1..3 : /\ DclFrom(k) = (CASE k = 1 -> 1 [] k = 2 -> 2 [] k = 3 -> 3)       \* Inj1..3 are written for these ends
+                       /\ DclTo(k) = (CASE k = 1 -> 3 [] k = 2 -> 1 [] k = 3 -> 2)
+PExt(d) == BaseP + d.load + d.storage - d.gen - d.sgen             \* slack injection = total net demand (no losses, no dcline at bus 0)
 FlowT(d) == PExt(d)                                                 \* bus 0 -> 1
-FlowA(d) == BaseP + d.storage - d.gen + d.load - d.sgen - d.dcline  \* bus 1 -> 2: net demand of buses 2 and 3 minus dcline infeed at 3
-FlowB(d) == d.load - d.sgen - d.dcline                              \* bus 2 -> 3
+FlowA(d) == BaseP + d.storage - d.gen - Inj2(d) + d.load - d.sgen - Inj3(d)  \* bus 1 -> 2: net demand of buses 2 and 3
+FlowB(d) == d.load - d.sgen - Inj3(d)                               \* bus 2 -> 3: net demand of bus 3
 Feasible(cfg, d) == /\ PExt(d) \in PRange(cfg, "ext_grid")
                     /\ Abs(FlowT(d)) <= Cap("T", cfg.rate) /\ Abs(FlowA(d)) <= Cap("A", cfg.rate) /\ Abs(FlowB(d)) <= Cap("B", cfg.rate)
-PowerOf(d, e) == CASE e = "ext_grid" -> PExt(d) [] e = "gen" -> d.gen [] e = "sgen" -> d.sgen [] e = "load" -> d.load
-                   [] e = "storage" -> d.storage [] e = "dcline" -> d.dcline
 RECURSIVE SumSet(_, _)
 SumSet(f, S) == IF S = {} THEN 0 ELSE LET x == CHOOSE y \in S : TRUE IN f[x] + SumSet(f, S \ {x})
-\* user cost of a grid dispatch: the sum over the cost rows (a "none" row contributes 0), ext_grid at the balance power
-GridCostR(rows, d) == UserRowP(rows["ext_grid"], PExt(d)) + UserRowP(rows["gen"], d.gen) + UserRowP(rows["sgen"], d.sgen)
-                      + UserRowP(rows["load"], d.load) + UserRowP(rows["storage"], d.storage) + UserRowP(rows["dcline"], d.dcline)
-GridCost(cfg, d) == GridCostR(RowsOf(cfg), d)
-GridApplicable(cfg) == ~cfg.ac /\ ~cfg.mesh /\ cfg.dcl # 2 /\ ~AnyQCost(cfg)
+\* user cost of a grid dispatch: the sum over the cost rows (a "none" row contributes 0; a ghost has p = 0 and a row that
+\* vanishes there), ext_grid at the balance power, the dcline row at the power of the last line (n = NDcl(cfg))
+GridCostR(rows, n, d) == UserRowP(rows["ext_grid"], PExt(d)) + UserRowP(rows["gen"], d.gen) + UserRowP(rows["sgen"], d.sgen)
+                         + UserRowP(rows["load"], d.load) + UserRowP(rows["storage"], d.storage) + UserRowP(rows["dcline"], DcP(d, n))
+GridCost(cfg, d) == GridCostR(RowsOf(cfg), NDcl(cfg), d)
+GridMax == 4000                                                     \* larger grids are not enumerated (several dclines with all elements free)
+GridApplicable(cfg) == ~cfg.ac /\ ~cfg.mesh /\ ~AnyLossy(cfg) /\ ~AnyQCost(cfg) /\ GridSize(cfg) <= GridMax
 GridExact(cfg) == GridApplicable(cfg) /\ ~AnyQuad(cfg)
 \* The brute force itself, written for TLC's interpreter: per element the row's cost over its integer range is tabulated
-\* once (a tuple, index p - lo + 1), the limits are plain integers, and every feasible dispatch contributes one sum.
+\* once (a tuple, index p - lo + 1), the limits are plain integers, and every feasible dispatch contributes one tuple
+\* <<cost, slack power>>.
 RECURSIVE TabFrom(_, _, _)
 TabFrom(row, p, hi) == IF p > hi THEN <<>> ELSE <<UserRowP(row, p)>> \o TabFrom(row, p + 1, hi)
-FeasibleCosts(cfg) ==
+FeasiblePoints(cfg) ==
   LET rows == RowsOf(cfg)
+      n == NDcl(cfg)
       elo == PLim("ext_grid", cfg.plim)[1]     ehi == PLim("ext_grid", cfg.plim)[2]
       cT == Cap("T", cfg.rate)   cA == Cap("A", cfg.rate)   cB == Cap("B", cfg.rate)
       lo(e) == SetMin(DRange(cfg, e))
@@ -257,13 +363,24 @@ FeasibleCosts(cfg) ==
       ts == TabFrom(rows["sgen"], lo("sgen"), SetMax(DRange(cfg, "sgen")))         ls == lo("sgen")
       tl == TabFrom(rows["load"], lo("load"), SetMax(DRange(cfg, "load")))         ll == lo("load")
       tb == TabFrom(rows["storage"], lo("storage"), SetMax(DRange(cfg, "storage"))) lb == lo("storage")
-      td == TabFrom(rows["dcline"], lo("dcline"), SetMax(DRange(cfg, "dcline")))   ld == lo("dcline")
+      ld == SetMin(DcRange(cfg, n))
+      td == TabFrom(rows["dcline"], ld, SetMax(DcRange(cfg, n)))
       ok(d) == LET pe == PExt(d) fa == FlowA(d) fb == FlowB(d)
                IN  pe >= elo /\ pe <= ehi /\ pe <= cT /\ -pe <= cT /\ fa <= cA /\ -fa <= cA /\ fb <= cB /\ -fb <= cB
-  IN  {te[PExt(d) - elo + 1] + tg[d.gen - lg + 1] + ts[d.sgen - ls + 1] + tl[d.load - ll + 1] + tb[d.storage - lb + 1]
-       + td[d.dcline - ld + 1] : d \in {x \in Dispatches(cfg) : ok(x)}}
+  IN  {<<te[PExt(d) - elo + 1] + tg[d.gen - lg + 1] + ts[d.sgen - ls + 1] + tl[d.load - ll + 1] + tb[d.storage - lb + 1]
+         + td[DcP(d, n) - ld + 1], PExt(d)>> : d \in {x \in Dispatches(cfg) : ok(x)}}
 NoOpt == 1000000000                                                 \* "no feasible grid point"
-GridOpt(cfg) == LET fc == FeasibleCosts(cfg) IN IF fc = {} THEN NoOpt ELSE SetMin(fc)
+GridOptOf(fp) == IF fp = {} THEN NoOpt ELSE SetMin({x[1] : x \in fp})
+GridOpt(cfg) == GridOptOf(FeasiblePoints(cfg))
+\* which transformer limit is active at an optimal grid dispatch ("T-": at its rating with power flowing lv -> hv, "T+":
+\* hv -> lv, "T0": the rating is not active at some optimal dispatch); used to stratify the sampled configurations
+GridBindOf(cfg, fp) ==
+  LET opt == SetMin({x[1] : x \in fp})
+      pes == {x[2] : x \in {y \in fp : y[1] = opt}}
+      cT == Cap("T", cfg.rate)
+  IN  IF fp = {} THEN {} ELSE {b \in {"T-", "T+", "T0"} : \/ b = "T-" /\ -cT \in pes
+                                                          \/ b = "T+" /\ cT \in pes
+                                                          \/ b = "T0" /\ \E pe \in pes : pe # cT /\ pe # -cT}
 \* bound on |cost| over the whole box, for the fixed-point range (model invariant CostInRange)
 RowAbsBound(cfg, e) == LET row == CostRowOf(cfg, e)
                            pm == SetMax({Abs(x) : x \in PRange(cfg, e)})
@@ -272,9 +389,32 @@ RowAbsBound(cfg, e) == LET row == CostRowOf(cfg, e)
                            ELSE IF row.kind = "pwl" THEN SetMax({Abs(PwlAt(row.pts, p, 1)) : p \in PRange(cfg, e)}) ELSE 0
 CostAbsBound(cfg) == SumSet([e \in Et |-> RowAbsBound(cfg, e)], Et)
 
-(* dcline loss laws (micro-MW).  Power flow / documentation (auxiliary.py:1587, doc/elements/dcline.rst):              *)
-(*     p_to = -(p_from*(1 - loss_percent/100) - loss_mw)                                                               *)
-(* OPF constraint (optimal_powerflow.py:105-129): (1 + loss_percent/100)*Pg_to + Pg_from = -loss_mw with Pg_from = -p_from, *)
-(*     i.e. p_to = -(p_from - loss_mw)/(1 + loss_percent/100).  They agree iff loss_percent = 0.                         *)
-DclPfLawDiffers(cfg) == cfg.dcl = 2 /\ ~TreeHasC16_1
+(* dcline loss laws (micro-MW).  Power flow / documentation (auxiliary.py:1587, doc/elements/dcline.rst), forward:      *)
+(*     p_to = -(p_from*(1 - loss_percent/100) - loss_mw);   reverse (p_mw < 0): the to-bus is the sending end,             *)
+(*     p_from = -(p_to*(1 - loss_percent/100) - loss_mw)                                                                *)
+(* OPF constraint (optimal_powerflow.py:105-129), whatever the direction: (1 + loss_percent/100)*Pg_to + Pg_from = -loss_mw *)
+(*     with Pg_from = -p_from, Pg_to = -p_to, i.e. (1 + loss_percent/100)*p_to + p_from = loss_mw.                          *)
+(* They agree iff loss_percent = 0 (and loss_mw = 0 for a reverse line).  C16_1 states the forward power-flow law in the   *)
+(* OPF constraint; a lossy line operated in reverse still differs then.                                                  *)
+DclPfLawDiffers(cfg) == \E k \in 1..NDcl(cfg) : DclLossy(Lines(cfg)[k]) /\ (~TreeHasC16_1 \/ DclRev(Lines(cfg)[k]))
+
+-----------------------------------------------------------------------------
+(* Strata of the configuration space (used by the harness to spread the sampled configurations: every stratum is        *)
+(* sampled, however small).  focus: which of the structural dimensions leaves the plain template; costs: which branch of  *)
+(* make_objective.py / the solver's cost handling the cost tables take.                                                  *)
+Focus(cfg) ==
+  {x \in {"plain", "dcl_reverse", "dcl_multi", "dcl_opposite", "shift", "sn", "ghost"} :
+     \/ x = "dcl_reverse" /\ NDcl(cfg) = 1 /\ DclRev(Lines(cfg)[1])
+     \/ x = "dcl_multi" /\ NDcl(cfg) > 1 /\ \A j, k \in 1..NDcl(cfg) : DclRev(Lines(cfg)[j]) = DclRev(Lines(cfg)[k])
+     \/ x = "dcl_opposite" /\ \E j, k \in 1..NDcl(cfg) : DclRev(Lines(cfg)[j]) # DclRev(Lines(cfg)[k])
+     \/ x = "shift" /\ cfg.shift # 0
+     \/ x = "sn" /\ cfg.sn # 1
+     \/ x = "ghost" /\ cfg.ghost # "none"
+     \/ x = "plain" /\ cfg.dcl \in PlainDcl /\ cfg.shift = 0 /\ cfg.sn = 1 /\ cfg.ghost = "none"}
+CostClass(cfg) ==
+  LET ks == {cfg.kind[e] : e \in Costed(cfg)}
+  IN  IF ks \cap QKinds # {} THEN "q"
+      ELSE IF ks \cap PwlKinds # {} THEN (IF ks \subseteq PwlKinds THEN "pwl" ELSE IF "lin0" \in ks THEN "pwl_poly_c0" ELSE "pwl_poly")
+      ELSE IF ks \cap QuadKinds # {} THEN "quad"
+      ELSE IF "lin0" \in ks THEN "lin_c0" ELSE "lin"
 =============================================================================
